@@ -5,6 +5,7 @@ package main
 import (
 	"fmt"
 	"math"
+	"math/big"
 	"strconv"
 	"strings"
 
@@ -130,6 +131,25 @@ func genAmt(g *Gen) {
 		rec2("exh7-reduced", "09.+-", "", 7)
 		for l := 8; l <= 11; l++ {
 			rec2("exh8to11-ternary", "01.", "", l)
+		}
+	}
+	// numerals whose value x 10^8 wraps modulo 2^64 into the legal range (a uint64 "optimisation" of the
+	// 128-bit arithmetic would accept them): i = ceil(k*2^64/10^8) + d
+	{
+		two64 := new(big.Int).Lsh(big.NewInt(1), 64)
+		e8 := big.NewInt(100000000)
+		nw := g.Scale(300, 5000)
+		for j := 0; j < nw; j++ {
+			k := big.NewInt(1 + r.Int63n(40000000000))
+			v := new(big.Int).Mul(k, two64)
+			v.Add(v, new(big.Int).Sub(e8, big.NewInt(1)))
+			v.Div(v, e8)
+			v.Add(v, big.NewInt(int64(r.Intn(3))))
+			sfx := ""
+			if r.Intn(2) == 0 {
+				sfx = "." + strconv.Itoa(r.Intn(100000000))
+			}
+			emitParse("wrap64", v.String()+sfx)
 		}
 	}
 	// random structured numerals
